@@ -346,3 +346,32 @@ Fixpoint specialise (eps_if_dead : bool) (T : Z) (pairs : list (Z * env)) (e : e
 Definition spec_values (eps_if_dead : bool) (T : Z) (nts : list nonterm) : list (Z * env) * list expr :=
   let pairs := all_pairs nts in
   (pairs, map (fun '(n, v) => specialise eps_if_dead T pairs v (nt_value (nth (Z.to_nat n) nts (mkNt [] [] EEmpty 0)))) pairs).
+
+(* ---------- the pieces of Instantiate by name, and the run-time checkable side conditions of the
+              correctness theorem (Templates_global.v) ---------- *)
+Definition inst_start (m : model) : ist :=
+  let T := nterms m in
+  let '(inputs, st) := fold_left (fun '(acc, st) i =>
+      let '(k, st) := resolve_instance st None (in_nt i) [] in
+      (acc ++ [mkInput (Z.of_nat k) (in_noeoi i)], st)) (m_inputs m) ([], mkI [] false) in
+  snd (fold_left (fun '(acc, st) s => let '(y, st) := do_set T st s in (acc ++ [y], st)) (m_sets m) ([], st)).
+
+Definition inst_perm (m : model) (insts : list inst) : list nat :=
+  let sfx := map (fun i => suffix_of (m_params m) (inst_env i)) insts in
+  let keys k := (i_nt (nth k insts (mkInst 0 [])), fst (nth k sfx ([], false))) in
+  let sorted := fold_left (fun acc x => insert_inst keys x acc) (seq 0 (length insts)) [] in
+  map (fun k => index_of k sorted O) (seq 0 (length insts)).
+
+Definition inst_eqb (a b : inst) : bool := (i_nt a =? i_nt b) && sig_eqb (i_sig a) (i_sig b).
+Fixpoint inst_nodupb (l : list inst) : bool :=
+  match l with [] => true | x :: r => negb (existsb (inst_eqb x) r) && inst_nodupb r end.
+
+Definition inst_checks (fuel : nat) (m : model) : bool :=
+  match m_params m with
+  | [] => true
+  | _ =>
+    let '(vals, st) := inst_loop fuel (nterms m) (m_nonterms m) O (inst_start m) [] in
+    negb (is_fatal st) && inst_nodupb (is_list st) &&
+    perm_ok (inst_perm m (is_list st)) (length vals) &&
+    forallb (bounded (nterms m + Z.of_nat (length vals))) vals
+  end.
